@@ -105,7 +105,7 @@ def _case(draw, tier):
             mesh = draw(meshgen.hull_mesh(6, 30 if big else 14, partial=True))
         else:
             mesh = draw(meshgen.latlon_mesh_st())
-        return {"mode": "mesh", "mesh": mesh}
+        return {"mode": "mesh", "mesh": mesh, "radius": draw(_radius())}
     face = None
     if mode == "bulge":
         face = draw(_bulge_face())
@@ -114,7 +114,13 @@ def _case(draw, tier):
     if face is None:
         face = draw(facegen.convex_face(max_class=3, tiny=True))
         mode = "face"
-    return {"mode": mode, "face": face}
+    return {"mode": mode, "face": face, "radius": draw(_radius())}
+
+
+def _radius():
+    """None: the grid is given by lon/lat alone; a number: it also carries Cartesian node coordinates on a sphere of
+    that radius (MPAS / Exodus sources with their own sphere radius)."""
+    return st.sampled_from([None, None, None, 1.0, 2.5, 6371229.0])
 
 
 def _on_ref_meridian(lonlat):
@@ -279,20 +285,21 @@ def judge_face(vs, box, site, ctx, fails, label=""):
 
 
 def _site(case):
+    r = ":cartesian-radius" if case.get("radius") not in (None, 1.0) else ""
     if case["mode"] == "mesh":
-        return "mesh"
-    return case["mode"]
+        return "mesh" + r
+    return case["mode"] + r
 
 
 def classify(case):
     if case["mode"] == "mesh":
-        labs = ["mode:mesh"] + meshgen.mesh_labels(case["mesh"])
+        labs = ["mode:mesh", "cartesian-radius:" + str(case.get("radius"))] + meshgen.mesh_labels(case["mesh"])
         if case.get("shifted_off_lon0"):
             labs.append("excluded-by-known:corner-on-lon0->rotated")
         return labs, True
     f = case["face"]
     vs = facegen.face_vectors(f)
-    labs = ["mode:" + case["mode"], f"corners:{len(vs)}", "how:" + f.get("how", "?"), "size:" + facegen.size_class(vs)]
+    labs = ["mode:" + case["mode"], "cartesian-radius:" + str(case.get("radius")), f"corners:{len(vs)}", "how:" + f.get("how", "?"), "size:" + facegen.size_class(vs)]
     if case.get("shifted_off_lon0"):
         labs.append("excluded-by-known:corner-on-lon0->rotated")
     exp = analyse_face(vs)
@@ -323,7 +330,7 @@ def run_case(case, ctx):
     fails = []
     if case["mode"] == "mesh":
         mesh = case["mesh"]
-        g = build.grid_from_mesh(mesh)
+        g = build.grid_from_mesh(mesh, **(build.cartesian_kw(mesh, case["radius"]) if case.get("radius") else {}))
         b = np.asarray(g.bounds.values, float)
         ctx.ev("bounds_shape")
         if b.shape != (len(mesh["faces"]), 2, 2):
@@ -335,11 +342,11 @@ def run_case(case, ctx):
                 continue
             if max(S.angle(vs[i], vs[(i + 1) % len(vs)]) for i in range(len(vs))) > math.radians(120):
                 continue
-            judge_face(vs, b[fi], "mesh", ctx, fails, label=f"face {fi} {[mesh['nodes'][i] for i in f]}")
+            judge_face(vs, b[fi], _site(case), ctx, fails, label=f"face {fi} {[mesh['nodes'][i] for i in f]}")
         return fails
     face = case["face"]
     mesh = {"nodes": face["lonlat"], "faces": [list(range(len(face["lonlat"])))]}
-    g = build.grid_from_mesh(mesh)
+    g = build.grid_from_mesh(mesh, **(build.cartesian_kw(mesh, case["radius"]) if case.get("radius") else {}))
     b = np.asarray(g.bounds.values, float)
     if b.shape != (1, 2, 2):
         return [Failure("encloses", _site(case), "shape", f"bounds shape {b.shape}")]
